@@ -154,4 +154,5 @@ func c11(c *Ctx) {
 	c.literalBounds("R11.3")
 	c.readerErrorPath("R11.5")
 	c.taggedResponsesNotDropped("R11.6")
+	c.recursionDepthPaired("R11.7")
 }
